@@ -45,6 +45,7 @@ class Query:
         self.bounds = bounds or {}
         self.expect_fail = list(expect_fail)   # regexes of obligations expected to FAIL (known findings probes)
         self.unit_override = {}                # unit -> goto binary to link instead of the default build
+        self.mem_expect = None                 # GB reserved in the scheduler (default: mem_gb, the kill cap)
         self.includes = []
 
 
@@ -158,7 +159,11 @@ def run_query(bld, q, trace=False, only_property=None):
         def watchdog():
             lim = q.mem_gb * (1 << 20)
             while p.poll() is None:
-                if _rss_kb(p.pid) > lim:
+                rss = _rss_kb(p.pid)
+                _LIVE[q.name] = rss
+                # over its own cap, or the machine-wide budget is exceeded and this is the largest query
+                over_all = sum(_LIVE.values()) > MEM_BUDGET_GB * (1 << 20) and rss >= max(_LIVE.values())
+                if rss > lim or over_all:
                     killed['oom'] = True
                     try:
                         os.killpg(p.pid, 9)
@@ -176,9 +181,11 @@ def run_query(bld, q, trace=False, only_property=None):
             except ProcessLookupError:
                 pass
             p.communicate()
+            _LIVE.pop(q.name, None)
             res['status'] = 'timeout'
             res['wall_s'] = time.time() - t0
             return res
+        _LIVE.pop(q.name, None)
         if killed.get('oom'):
             res['status'] = 'oom'
             res['error'] = 'resident set exceeded %d GB: killed, no verdict' % q.mem_gb
@@ -294,6 +301,7 @@ def classify(res, q):
 
 
 MEM_BUDGET_GB = int(os.environ.get('VF_MEM_GB', '48'))
+_LIVE = {}      # query name -> current resident set (KB), maintained by the watchdogs
 
 
 def run_all(bld, queries, jobs=None):
@@ -306,7 +314,7 @@ def run_all(bld, queries, jobs=None):
     state = {'free': MEM_BUDGET_GB}
 
     def one(q):
-        need = min(q.mem_gb, MEM_BUDGET_GB)
+        need = min(getattr(q, 'mem_expect', None) or q.mem_gb, MEM_BUDGET_GB)
         with cv:
             while state['free'] < need:
                 cv.wait()
